@@ -3914,6 +3914,7 @@ func ruleC07ReceiverCopy(c *ctx.Ctx, r *core.Reporter) {
 	}
 	// the type switch on struct/array that guards the $clone of the receiver
 	helper := ""
+	unconditional := false
 	site := fd.Pos()
 	ast.Inspect(fd.Body, func(x ast.Node) bool {
 		cc, ok := x.(*ast.CaseClause)
@@ -3926,6 +3927,18 @@ func ruleC07ReceiverCopy(c *ctx.Ctx, r *core.Reporter) {
 		}
 		if !(labs["*types.Struct"] && labs["*types.Array"]) {
 			return true
+		}
+		for _, st := range cc.Body {
+			if _, isIf := st.(*ast.IfStmt); isIf {
+				continue
+			}
+			ast.Inspect(st, func(z ast.Node) bool {
+				if bl, ok := z.(*ast.BasicLit); ok && strings.Contains(bl.Value, "$clone(") {
+					unconditional = true
+					site = st.Pos()
+				}
+				return true
+			})
 		}
 		ast.Inspect(cc, func(y ast.Node) bool {
 			is, ok := y.(*ast.IfStmt)
@@ -3949,6 +3962,11 @@ func ruleC07ReceiverCopy(c *ctx.Ctx, r *core.Reporter) {
 		})
 		return true
 	})
+	if unconditional {
+		r.OK("prologue-clones-modified-receiver", c.Pos(site), "under `case *types.Struct, *types.Array` the receiver is always bound to `$clone(this, T)`")
+		r.OK("predicate-covers-modifications", c.Pos(site), "no predicate: every struct/array value receiver is copied")
+		return
+	}
 	r.Check(helper != "", "prologue-clones-modified-receiver", c.Pos(site), "under `case *types.Struct, *types.Array` the receiver is bound to `$clone(this, T)` when the may-modify predicate holds (interface calls, method values and method expressions pass the stored value itself: `var i I = s; i.Bump(); i.Bump()` would count 1, 2)"+ternary(helper != "", " (predicate: "+helper+")", ""))
 	if helper == "" {
 		return
